@@ -6,7 +6,7 @@ HERE = os.path.dirname(os.path.abspath(__file__))
 CLAIMED = {
     "C19": dict(
         text="Proof: the real writers of nsl/WebAssembly.py (PackInteger, WriteInteger, Instruction.WriteTo, WriteString, Export/Local/Table/Memory.WriteTo, the six section writers, Code.Encode) are executed symbolically on the full 32-bit ranges and on opaque names/payloads of symbolic length; every path's bytes are decoded by the standard LEB128 decoders (spec functions) and each clause is discharged by z3. Callers of WriteInteger are verified against its contract (modular cut).",
-        note="Trusted: CPython, pyvc proxies/path oracle, z3; str.encode('utf-8'); number of section entries enumerated 0..3 (entry sizes symbolic); composition into whole modules is C07.",
+        note="Trusted: CPython, pyvc proxies/path oracle, z3; str.encode('utf-8'); number of section entries enumerated 0..3 and 128 (thorough: up to 300; entry sizes symbolic); the LEB128 length is the exact piecewise function (C19.leb.unsigned.length-exact); composition into whole modules is C07.",
         technique="contract-based deductive verification: symbolic execution of the real functions with z3 proxies, LEB128 decoder as spec function, modular contract cut for WriteInteger",
         design="DESIGN.md section 4 (C19)"),
 }
@@ -24,12 +24,12 @@ CLAIMED["C10"] = dict(
 
 CLAIMED["C11"] = dict(
     text="Proof by induction on statement trees: for every AST node class (children opaque) and a symbolic loop depth d >= 0, the real ValidateFlowStatementVisitor is executed; visits of children are answered by the induction hypothesis (raises and clears valid iff misplaced, lemma misplaced => depth 0); z3 discharges child depth, valid flag and exception clauses. The shared visitor machinery (ForEachChild/_Traverse of every node class, default traversal, MRO dispatch) is proved per class. A bounded end-to-end enumeration of all statement trees up to nesting depth 2 supplies replayable witnesses (labelled bounded).",
-    note="Trusted: CPython, pyvc, z3. Representation assumption: loop depth = visitor context (int). The 'innermost loop' clause is an obligation of the lowering (C01/C14 families, not yet built) and is NOT covered here. Pipeline wiring (a failing pass stops compilation) is exercised only by the bounded e2e family.",
+    note="Trusted: CPython, pyvc, z3. Representation assumption: loop depth = visitor context (int). The 'innermost loop' clause is discharged by the lowering families (LOWER.control: loop stack, nested and sequential loops) and by E2E.scalar programs with loops in caller and callee; pipeline wiring by P.pipeline.",
     technique="contract-based deductive verification: inductive step per node class with the induction hypothesis as contract stub for child visits, symbolic depth, z3",
     design="DESIGN.md section 4 (C11)")
 CLAIMED["C12"] = dict(
     text="Proof by induction: Context.Add/Get verified on all context chains of depth 1-4 over a name universe (exhaustive-finite, uniform in names); every node class is visited by the real ValidateVariableNamesVisitor with opaque children: scope nodes give all children one fresh context chained to the incoming one, non-scope nodes pass the context through, declarations add to the context they are visited with, parameters are declared before the body, a redeclaration below clears valid. A bounded end-to-end grid of block structures x declaration positions x names supplies replayable witnesses.",
-    note="Trusted: CPython, pyvc. The typing-scope mirror (ComputeTypes) and the flat per-function map of the lowering are covered only by the bounded e2e grid so far.",
+    note="Trusted: CPython, pyvc. The typing-scope mirror is under C12.typing-scopes (balanced scope stack per scope node, induction with opaque children); the flat per-function map of the lowering under LOWER.VariableDeclaration (every state of the local table) and the E2E.scalar scope programs.",
     technique="contract-based deductive verification: inductive step per node class with opaque children; exhaustive finite chains",
     design="DESIGN.md section 4 (C12)")
 CLAIMED["C13"] = dict(
@@ -40,14 +40,14 @@ CLAIMED["C13"] = dict(
 
 CLAIMED["C20"] = dict(
     text="Proof: the real SourceMapping.__init__/GetLineFromOffset/GetLineStartOffset run on an opaque text whose lines have symbolic lengths (real bisect on symbolic offsets) and z3 proves the line of every offset; Location.__str__ is proved to print 1-based line:column ranges relative to each end's own line (formatted numbers traced as tokens); Merge is the hull; UpdateLocations.v_Generic yields, for every node class with opaque children carrying symbolic spans, the hull of own and children's ranges (induction on tree height); every grammar action that calls SetLocation is run on a stand-in production with symbolic token offsets and proved to attach the range of the token the name was taken from. Bounded layout grid for witnesses.",
-    note="Trusted: CPython, pyvc, z3; str.split; PLY lexpos axiom. The number of lines is enumerated 1..5 (line lengths and offsets unbounded symbols) -- the loop of SourceMapping.__init__ is executed, not cut at an invariant. Diagnostic argument order is proved in C12.ctx.add.",
+    note="Trusted: CPython, pyvc, z3; str.split; PLY lexpos axiom. The number of lines is enumerated 1..5 (thorough: 1..8; line lengths and offsets unbounded symbols) -- the loop of SourceMapping.__init__ is executed, not cut at an invariant. Diagnostic argument order is proved in C12.ctx.add.",
     technique="contract-based deductive verification: symbolic execution with z3 proxies on opaque text / symbolic token offsets; inductive visitor step for the hull",
     design="DESIGN.md section 4 (C20)")
 
 VMTXT = "the interpreter loop of VM.ExecutionContext.__Execute is sliced mechanically into prologue / loop-step / epilogue functions on every run and the step is executed on symbolic operand values"
 CLAIMED["C01"] = dict(
     text="Proof of component contracts: (1) " + VMTXT + " for every scalar opcode x operand kind against the reference semantics IRsem (truncating integer division, 0/1 comparisons and logical operators, fresh zero-initialised locals re-created per execution, loads/stores per scope, branches, return) with a full frame condition; (2) CFG-schema simulation of the real lowering handlers for if/else, while, do, for (all init/cond/next combinations), blocks, return, break, continue, nested and sequential loops on nodes with opaque children: the path set of the emitted blocks equals the structured source semantics (break leaves, continue re-tests, for-increment runs on continue, innermost loop); (3) straight-line emission contracts for binary/assignment/name/affix/declaration/cast/call/literal expressions, opcode map, type adaptation, argument index rewrite, compound-assignment rewrite and every relevant grammar action; (4) pipeline wiring; (5) whole-pipeline families E2E.scalar / E2E.grouping: ~45 curated scalar-core programs (every statement and operator form, arrays, structs, calls, recursion, globals), each compiled by the real compiler and run by the real VM on SYMBOLIC inputs against the reference interpreter refsem.py in the same path context -- each obligation holds for all inputs of its program. Grouping by precedence is C08, typing C09.",
-    note="Trusted: CPython, pyvc (proxies, slicer, path explorer), z3, IRsem and the structured semantics written from the property text. Floats are reals (A2) -- IEEE rounding only by a bounded sampling family. The composition of the per-construct contracts into the whole-program statement (induction on the AST) is a paper argument. Prologue loops executed on enumerated block layouts.",
+    note="Trusted: CPython, pyvc (proxies, slicer, path explorer), z3, IRsem and the structured semantics written from the property text. Floats are reals (A2); the float arms are additionally discharged under the IEEE view (float operators uninterpreted), see DESIGN 0.1. Known finding D25 (compound assignment evaluates the target twice). The composition of the per-construct contracts into the whole-program statement (induction on the AST) is a paper argument. Prologue loops executed on enumerated block layouts.",
     technique="contract-based deductive verification: mechanical step slice of the interpreter loop + symbolic execution against IRsem (z3); CFG-schema simulation of the real lowering with opaque children (induction hypothesis as contract stub)",
     design="DESIGN.md section 4 (C01)")
 CLAIMED["C02"] = dict(
@@ -62,7 +62,7 @@ CLAIMED["C03"] = dict(
     design="DESIGN.md section 4 (C03)")
 CLAIMED["C04"] = dict(
     text="Proof: (1) every vector/matrix arm of the sliced interpreter step on symbolic components against component-wise IRsem (sizes 2-4, 3x3, 4x4); (2) end to end on symbolic values: every swizzle read mask (all lengths, orders, repetitions, both letter sets) and every non-repeating write mask on parameters, locals, globals and copies, every element/row access with symbolic in-range indices, every vector/matrix operator over the spellable types, every constructor split -- each program compiled by the real compiler once and executed by the real VM on proxies, so each obligation holds for all component values.",
-    note="Trusted: CPython, pyvc, z3; floats as reals (IEEE rounding only by the bounded sampling family VM.step.float-concrete). Integer vector division unconstrained. Known finding D20c (matrix * vector).",
+    note="Trusted: CPython, pyvc, z3; floats as reals, plus the IEEE view (uninterpreted float operators) for element-wise + -, and (vector | matrix) (* | /) scalar; matrix products keep the real model (summation order not prescribed). Known finding D20c (matrix * vector).",
     technique="contract-based deductive verification: symbolic execution of the real compiler output on the real VM with z3 proxies over completely enumerated program families; step slice for the arms",
     design="DESIGN.md section 4 (C04)")
 CLAIMED["C05"] = dict(
@@ -89,13 +89,13 @@ CLAIMED["C08"] = dict(
 
 CLAIMED["C16"] = dict(
     text="Proof of component contracts: Linker.AddModule/Link on every enumerated import graph (single, one import, chain of four, diamond, two roots sharing an import, module imported along two paths) in every order of adding the roots with a counting loader: union of all tables, every imported module loaded exactly once, duplicates of functions and globals rejected in either order and through imports, frame of AddModule, isolation of linkers; producer/consumer agreement of the module metadata (LowerToIR.v_Module writes what ComputeTypes.v_Module reads; imports wherever they stand; calls lowered to the exporting module's registered name) checked by compiling importing modules against an in-memory loader and running the linked program; the import grammar actions. A bounded end-to-end family goes through pickle files and the real file loader.",
-    note="Trusted: pickle and FilesystemModuleLoader (only exercised by the bounded family), CPython set iteration order for the run. Import graphs of at most four modules.",
+    note="Trusted: pickle and FilesystemModuleLoader (only exercised by the bounded family), CPython set iteration order for the run. Import graphs of at most six modules (incl. module names that share a stem or affix).",
     technique="contract-based verification of the linker and of the metadata producer/consumer pair (exhaustive finite import graphs, counting loader)",
     design="DESIGN.md section 4 (C16)")
 
 CLAIMED["C06"] = dict(
     text="Proof of component contracts: totality -- for every instruction class of the IR (one shape per subclass, by reflection) and every load/store x scope of variable accesses, the real generator either appends code or raises, never drops the instruction; per-handler simulation -- for every (opcode, operand types) the emitted wasm sequence is executed under wasmsem (a transcription of the 1.0 semantics and validation rules of the ~25 opcodes the generator can emit) on symbolic operands and z3 proves it well-typed, stack-balanced and equal to IRsem wrapped to 32 bits, with constant operands included; argument loads, returns, constants (i32.const immediates decode signed: C19). A bounded grid of programs is validated and executed by wasmtime against the VM.",
-    note="Trusted: wasmsem (hand transcription), CPython, pyvc, z3; floats as reals ('to single precision' assumed). Straight-line composition of the per-instruction simulation is a paper argument. Known finding D22c.",
+    note="Trusted: wasmsem (hand transcription), CPython, pyvc, z3; floats as reals ('to single precision' assumed). Straight-line composition of the per-instruction simulation is a paper argument. Known findings D22c (non-scalar types) and D24 (the VM's integers are unbounded, the module wraps to 32 bits: C06.chain).",
     technique="contract-based deductive verification: per-handler simulation relation against a reference semantics of the target (z3), totality over the instruction class table",
     design="DESIGN.md section 4 (C06)")
 CLAIMED["C07"] = dict(
